@@ -1031,8 +1031,8 @@ def listcomp_loop(eng, st, e, xs, spec, ordn):
     """A comprehension with a sidecar loop spec is executed as the loop
     `comp = []; for x in xs: comp.append(elt)` (invariants speak about `comp`)."""
     g = e.generators[0]
-    if g.ifs or xs.ty.kind != 'list':
-        raise core.EngineError('comprehension loop spec with filter')
+    if xs.ty.kind != 'list':
+        raise core.EngineError('comprehension loop spec over %r' % (xs.ty,))
     ety = xs.ty.args[0]
     rty = spec.elem_ty
     i = z3.Int(eng.name('i%d' % ordn))
@@ -1060,7 +1060,8 @@ def listcomp_loop(eng, st, e, xs, spec, ordn):
     head.env = env
     head.pc.append(i >= 0)
     head.pc.append(i <= z3.Length(xs.t))
-    head.pc.append(z3.Length(comp.t) == i)
+    # with a filter the result is a subsequence: at most one element per element visited
+    head.pc.append(z3.Length(comp.t) <= i if g.ifs else z3.Length(comp.t) == i)
     for cl in spec.invariants:
         head = eng.assume(head, eng.spec_bool(cl.src, head, env), copy=False)
         if head is None:
@@ -1076,17 +1077,43 @@ def listcomp_loop(eng, st, e, xs, spec, ordn):
         env2 = dict(s2.env)
         env2[g.target.id] = V(ety, xs.t[i])
         s2.env = env2
-        for s3, v in eng.ev(e.elt, s2):
-            if isinstance(v, core.Raise):
-                s3.env = dict(st.env)
-                yield eng._loop_exit(s3, st), v
-                continue
-            env3 = dict(s3.env)
-            env3['comp'] = V(List(rty), z3.Concat(comp.t, z3.Unit(eng.coerce(v, rty).t)))
+
+        def keep(s3, env3):
             env3[spec.index or '_i'] = vint(i + 1)
             for cl in spec.invariants:
                 eng.oblige(s3, 'inv-keep', 'loop%d:%s' % (ordn, cl.label),
                            eng.spec_bool(cl.src, s3, env3), props=cl.props, line=e.lineno)
+
+        def filtered(s3, conds):
+            """(state, passes?) after evaluating the `if` clauses left to right"""
+            if not conds:
+                yield s3, True
+                return
+            for s4, cv in eng.ev(conds[0], s3):
+                if isinstance(cv, core.Raise):
+                    yield s4, cv
+                    continue
+                for s5, ok in eng.fork(s4, truth(cv)):
+                    if ok:
+                        yield from filtered(s5, conds[1:])
+                    else:
+                        yield s5, False
+        for s2b, passes in filtered(s2, list(g.ifs)):
+            if isinstance(passes, core.Raise):
+                s2b.env = dict(st.env)
+                yield eng._loop_exit(s2b, st), passes
+                continue
+            if not passes:
+                keep(s2b, dict(s2b.env))        # element skipped: comp unchanged
+                continue
+            for s3, v in eng.ev(e.elt, s2b):
+                if isinstance(v, core.Raise):
+                    s3.env = dict(st.env)
+                    yield eng._loop_exit(s3, st), v
+                    continue
+                env3 = dict(s3.env)
+                env3['comp'] = V(List(rty), z3.Concat(comp.t, z3.Unit(eng.coerce(v, rty).t)))
+                keep(s3, env3)
 
 
 # ---------------------------------------------------------------------------------------------
